@@ -6,17 +6,17 @@
 //! Oracle: response data text (key order included) equals the reference
 //! executor's; errors only where the reference raises a completion error.
 
-use agv_common::gen::{gen_doc, GenCfg};
-use agv_common::glue::{obs_of, table_json, ChooserWorld, MenuCfg};
-use agv_common::s1::{self, Wd};
+use agv_common::casecheck::{first_diff, replay_fixed, run_static, CaseOutcome, Compared};
+use agv_common::gen::GenCfg;
+use agv_common::glue::{table_json, MenuCfg};
+use agv_common::s1;
 use agv_engine::explore::{explore, Chooser, Class, ExploreCfg};
 use agv_engine::record::{Cx, Violation};
 use agv_refgql::ast::OpKind;
-use agv_refgql::exec::{execute, path_str, Ans, ErrKind};
+use agv_refgql::exec::{path_str, Ans, ErrKind};
 use agv_refgql::schema::Schema;
 use serde_json::{json, Value as J};
 use std::sync::atomic::{AtomicU64, Ordering};
-use std::sync::Arc;
 
 const FIELDS: &[(&str, &[&str])] = &[
     ("Query", &["a", "n", "o", "i", "u", "l", "f"]),
@@ -42,125 +42,32 @@ enum Outcome {
     Ran { doc_hash: u64, case_hash: u64 },
 }
 
-fn first_diff(exp: &J, got: &J, path: &str) -> Option<String> {
-    match (exp, got) {
-        (J::Object(a), J::Object(b)) => {
-            let ka: Vec<&String> = a.keys().collect();
-            let kb: Vec<&String> = b.keys().collect();
-            for k in &ka {
-                if !b.contains_key(*k) {
-                    return Some(format!("missing-key at {path}/{k}"));
-                }
-            }
-            for k in &kb {
-                if !a.contains_key(*k) {
-                    return Some(format!("extra-key at {path}/{k}"));
-                }
-            }
-            if ka != kb {
-                return Some(format!("key-order at {path}"));
-            }
-            for k in ka {
-                if let Some(d) = first_diff(&a[k], &b[k], &format!("{path}/{k}")) {
-                    return Some(d);
-                }
-            }
-            None
-        }
-        (J::Array(a), J::Array(b)) => {
-            if a.len() != b.len() {
-                return Some(format!("list-length at {path}"));
-            }
-            for (i, (x, y)) in a.iter().zip(b).enumerate() {
-                if let Some(d) = first_diff(x, y, &format!("{path}/{i}")) {
-                    return Some(d);
-                }
-            }
-            None
-        }
-        (x, y) if x == y => None,
-        (J::Null, _) => Some(format!("expected-null at {path}")),
-        (_, J::Null) => Some(format!("unexpected-null at {path}")),
-        _ => Some(format!("value-differs at {path}")),
-    }
-}
-
-fn run_case(cx: &Cx, refs: &Schema, schema: &s1::S1, gcfg: &GenCfg, ch: &mut Chooser, cnt: &Counters, world_class: Class) -> Outcome {
-    let Some(gd) = gen_doc(gcfg, ch) else {
-        cnt.not_doc.fetch_add(1, Ordering::Relaxed);
-        return Outcome::NotDoc;
-    };
-    let text = agv_refgql::print::exec_doc(&gd.doc);
-    let doc = match agv_refgql::parse::parse_exec(&text) {
-        Ok(d) => d,
-        Err(e) => {
-            cx.machinery_error(format!("generator printed an unparsable document {text:?}: {}", e.msg));
-            return Outcome::NotDoc;
-        }
-    };
-    if !agv_refgql::validate::validate(refs, &doc).is_empty() {
-        cnt.invalid.fetch_add(1, Ordering::Relaxed);
-        return Outcome::Invalid;
-    }
-    cnt.valid.fetch_add(1, Ordering::Relaxed);
-    let mut world = ChooserWorld {
-        s: refs,
-        ch,
-        cfg: MenuCfg { errors: false, non_finite: true, wrong_kind: false, rich: true },
-        class: world_class,
-        table: Default::default(),
-        asked: 0,
-        filter: None,
-    };
-    let r = execute(refs, &doc, None, &gd.variables, &mut world);
-    let table = world.table;
-    let wd = Arc::new(Wd::new(table.clone()));
-    let case = || json!({"query": text, "variables": J::Object(gd.variables.clone()), "world": table_json(&table)});
-    let doc_hash = agv_engine::hstr(&text);
-    let case_hash = agv_engine::h64(&(&text, serde_json::to_string(&gd.variables).unwrap(), format!("{table:?}")));
-    cx.eval();
-    let resp = match agv_engine::catch_quiet(|| agv_common::run_s1(schema, &text, None, &gd.variables, wd.clone())) {
-        Ok(Ok(r)) => r,
-        Ok(Err(e)) => {
-            cx.machinery_error(format!("{e}: {text}"));
-            return Outcome::Ran { doc_hash, case_hash };
-        }
-        Err(p) => {
-            cx.violation(Violation::new("panic", format!("execute panicked: {p}"), case()));
-            return Outcome::Ran { doc_hash, case_hash };
-        }
-    };
-    let obs = obs_of(&resp);
-    let Some(exp_data) = &r.data else {
-        cx.machinery_error(format!("reference raised a request error on a validated document: {:?} for {text}", r.request_error));
-        return Outcome::Ran { doc_hash, case_hash };
-    };
-    let exp_text = serde_json::to_string(exp_data).unwrap();
-    let features = gd.features.join(",");
-    // non-finite floats reached?
+fn judge(cx: &Cx, c: &Compared, cnt: &Counters) {
+    let exp_data = c.reference.data.as_ref().unwrap();
+    let exp_text = c.expected_data_text();
+    let r = &c.reference;
     let nonfinite_paths: Vec<String> = r
         .errors
         .iter()
-        .filter(|e| e.kind == ErrKind::Completion && matches!(table.get(&path_str(&e.path)), Some(Ans::Float(f)) if !f.is_finite()))
+        .filter(|e| e.kind == ErrKind::Completion && matches!(c.table.get(&path_str(&e.path)), Some(Ans::Float(f)) if !f.is_finite()))
         .map(|e| path_str(&e.path))
         .collect();
     let only_nonfinite_errors = !r.errors.is_empty() && nonfinite_paths.len() == r.errors.len();
-    let got_json: J = serde_json::from_str(&obs.data).unwrap_or(J::Null);
-    let exp_errs: Vec<_> = r.errors.iter().map(|e| e.path.clone()).collect();
-    let got_errs: Vec<_> = obs.errors.iter().map(|e| e.path.clone()).collect();
+    let got_json: J = serde_json::from_str(&c.obs.data).unwrap_or(J::Null);
+    let got_errs: Vec<_> = c.obs.errors.iter().map(|e| e.path.clone()).collect();
     let err_ok = agv_refgql::exec::errors_consistent(&r.errors, &got_errs);
-    if obs.data == exp_text && err_ok.is_ok() {
+    if c.obs.data == exp_text && err_ok.is_ok() {
         if exp_text.len() > 2 && exp_text != "null" {
             cnt.agree_nonempty.fetch_add(1, Ordering::Relaxed);
         }
-    } else if only_nonfinite_errors && obs.errors.is_empty() {
+    } else if only_nonfinite_errors && c.obs.errors.is_empty() {
         // the implementation turned a non-finite float into null without an error
-        let nullable = if exp_text == obs.data { "nullable-position" } else { "non-null-position" };
+        let nullable = if exp_text == c.obs.data { "nullable-position" } else { "non-null-position" };
         cx.violation(
             Violation::new(
                 "non-finite-float-to-null",
-                format!("resolver returned a non-finite Float at {:?}: expected a field error (data {exp_text}), got data {} with no error", nonfinite_paths, obs.data),
-                case(),
+                format!("resolver returned a non-finite Float at {:?}: expected a field error (data {exp_text}), got data {} with no error", nonfinite_paths, c.obs.data),
+                c.case_json(),
             )
             .key("position", nullable),
         );
@@ -173,14 +80,48 @@ fn run_case(cx: &Cx, refs: &Schema, schema: &s1::S1, gcfg: &GenCfg, ch: &mut Cho
         cx.violation(
             Violation::new(
                 format!("data-{kind}"),
-                format!("{diff}\n expected data {exp_text} errors {:?}\n got      data {} errors {:?}", exp_errs.iter().map(|p| path_str(p)).collect::<Vec<_>>(), obs.data, obs.errors.iter().map(|e| (path_str(&e.path), e.message.clone())).collect::<Vec<_>>()),
-                case(),
+                format!(
+                    "{diff}\n expected data {exp_text} errors {:?}\n got      data {} errors {:?}",
+                    r.errors.iter().map(|e| path_str(&e.path)).collect::<Vec<_>>(),
+                    c.obs.data,
+                    c.obs.errors.iter().map(|e| (path_str(&e.path), e.message.clone())).collect::<Vec<_>>()
+                ),
+                c.case_json(),
             )
-            .key("features", features),
+            .key("features", c.features.join(",")),
         );
     }
-    cx.sample_with(case_hash, || json!({"query": text, "variables": J::Object(gd.variables.clone()), "world": table_json(&table), "data": exp_text}));
-    Outcome::Ran { doc_hash, case_hash }
+}
+
+fn run_case(cx: &Cx, refs: &Schema, schema: &s1::S1, gcfg: &GenCfg, ch: &mut Chooser, cnt: &Counters, world_class: Class) -> Outcome {
+    let menu = MenuCfg { errors: false, non_finite: true, wrong_kind: false, rich: true };
+    match run_static(refs, schema, gcfg, ch, menu, world_class, None) {
+        CaseOutcome::NotDoc => {
+            cnt.not_doc.fetch_add(1, Ordering::Relaxed);
+            Outcome::NotDoc
+        }
+        CaseOutcome::Invalid => {
+            cnt.invalid.fetch_add(1, Ordering::Relaxed);
+            Outcome::Invalid
+        }
+        CaseOutcome::Machinery(m) => {
+            cx.machinery_error(m);
+            Outcome::NotDoc
+        }
+        CaseOutcome::Panic { msg, case } => {
+            cx.eval();
+            cx.violation(Violation::new("panic", format!("execute panicked: {msg}"), case));
+            Outcome::NotDoc
+        }
+        CaseOutcome::Ran(c) => {
+            cx.eval();
+            cnt.valid.fetch_add(1, Ordering::Relaxed);
+            judge(cx, &c, cnt);
+            let h = c.case_hash();
+            cx.sample_with(h, || json!({"query": c.text, "variables": J::Object(c.vars.clone()), "world": table_json(&c.table), "data": c.expected_data_text()}));
+            Outcome::Ran { doc_hash: agv_engine::hstr(&c.text), case_hash: h }
+        }
+    }
 }
 
 fn run(cx: &Cx) {
@@ -193,7 +134,7 @@ fn run(cx: &Cx) {
         return cx.machinery_error(format!("S1's reference SDL and Schema::sdl() disagree: {e}"));
     }
     let (nodes, deco, worldb) = if cx.quick() { (4, 1, 1) } else { (5, 2, 2) };
-    let gcfg = GenCfg { schema: &refs, fields: FIELDS, conds: CONDS, max_nodes: nodes, max_depth: 3, named_fragments: 2, deco: Some(Class::Dev(0)), typename: true, op: OpKind::Query };
+    let gcfg = GenCfg { schema: &refs, fields: FIELDS, conds: CONDS, max_nodes: nodes, max_depth: 3, named_fragments: 2, deco: Some(Class::Dev(0)), typename: true, op: OpKind::Query, root_fragments: true };
     let cnt = Counters { not_doc: AtomicU64::new(0), invalid: AtomicU64::new(0), valid: AtomicU64::new(0), agree_nonempty: AtomicU64::new(0) };
     let ecfg = ExploreCfg { bounds: [deco, worldb, 0, 0], ..Default::default() };
     let docs = std::sync::Mutex::new(std::collections::HashSet::new());
@@ -231,21 +172,20 @@ fn run(cx: &Cx) {
 
 fn replay(case: &J) -> String {
     let schema = s1::schema();
-    let text = case["query"].as_str().unwrap_or("");
-    let vars = case["variables"].as_object().cloned().unwrap_or_default();
-    let table = agv_common::glue::table_from_json(&case["world"]);
     let refs = Schema::from_sdl(s1::SDL).unwrap();
-    let doc = agv_refgql::parse::parse_exec(text).unwrap();
-    let w = agv_refgql::exec::TableWorld { table: table.clone() };
-    let r = execute(&refs, &doc, None, &vars, &mut agv_refgql::exec::TableWorldRef { s: &refs, w: &w });
-    let resp = agv_common::run_s1(&schema, text, None, &vars, Arc::new(Wd::new(table)));
-    format!(
-        "\n query: {text}\n variables: {}\n expected data: {} errors at {:?}\n got: {}",
-        J::Object(vars),
-        r.data.map(|d| d.to_string()).unwrap_or_default(),
-        r.errors.iter().map(|e| path_str(&e.path)).collect::<Vec<_>>(),
-        resp.map(|r| obs_of(&r).to_json().to_string()).unwrap_or_else(|e| e)
-    )
+    match replay_fixed(&refs, &schema, case) {
+        CaseOutcome::Ran(c) => format!(
+            "\n query: {}\n variables: {}\n expected data: {} errors at {:?}\n got: {}",
+            c.text,
+            J::Object(c.vars.clone()),
+            c.expected_data_text(),
+            c.reference.errors.iter().map(|e| path_str(&e.path)).collect::<Vec<_>>(),
+            c.obs.to_json()
+        ),
+        CaseOutcome::Panic { msg, .. } => format!("panicked: {msg}"),
+        CaseOutcome::Machinery(m) => m,
+        _ => "case is not a valid document".into(),
+    }
 }
 
 fn main() {
